@@ -175,7 +175,8 @@ def variants(i, with_xlsx):
         for so in (0, 1):
             for bo in (0, 1):
                 out.append(('xlsx/s%d/b%d' % (so, bo), (so, bo)))
-        out.append(('ondemand/first-book-only', None))
+        out.append(('ondemand/first-book-only', 0))
+        out.append(('ondemand/last-book-only', -1))
     return out
 
 
@@ -186,7 +187,7 @@ def run_variant(desc, label, arg, scratch):
         # only the first book is loaded; finish() completes the model with
         # whatever the loaded formulas reach in the other books
         m, _ = wbrun.load_xlsx(desc, os.path.join(scratch, 'x'),
-                               book_order=lambda p: p[:1])
+                               book_order=lambda p: [p[arg]])
     else:
         so, bo = arg
         m, _ = wbrun.load_xlsx(
@@ -231,9 +232,12 @@ def check_desc(desc, i, ctx, with_xlsx=True, fp_every=1):
             # cells reached through a spill cell of an array formula in a book
             # that is only loaded on demand belong to C15 (anchor not pulled
             # in); they are left out here
-            spill = {k for k, a in ev.owner.items() if k[0] != 0}
+            loaded = arg % len(desc['books'])
+            if len(desc['books']) == 1 and arg == -1:
+                continue
+            spill = {k for k, a in ev.owner.items() if k[0] != loaded}
             tainted = wbrun.downstream(desc, spill) if spill else set()
-            needed = wbrun.upstream(desc, [k for k in obs if k[0] == 0])
+            needed = wbrun.upstream(desc, [k for k in obs if k[0] == loaded])
             bad = [k for k, v in obs.items() if v != ('missing',)
                    and k not in tainted and k in needed
                    and first and not xl.same(v, first[2].get(k, ('missing',)))]
@@ -280,9 +284,9 @@ def check_fixture(name, ctx):
 
 
 def plan(tier, seed):
-    nd = 64 if tier == 'quick' else 480
+    nd = 48 if tier == 'quick' else 480
     seeds = (0, 1, 2, 3) if tier == 'quick' else tuple(range(16))
-    per = 16 if tier == 'quick' else 40
+    per = 12 if tier == 'quick' else 40
     specs = []
     for h in seeds:
         for lo in range(0, nd, per):
